@@ -21,4 +21,12 @@ theorem C18_source_merge_test_suites {X : Ext} {o : SeqOpts} {lg : Val} {step : 
     Gen.c15oMergeTestSuitesSrc.runTr X [tsObj a, tsObj b, i] = .ok (tsObj (mergeSuites a b), []) :=
   C15_source_merge_test_suites hX a b i
 
+/-- `C15_source_sequence_iter`, re-exported for C18 -/
+theorem C18_source_sequence_iter {X : Ext} {fuel : Nat} (hX : SrcExt X fuel) (s : Src) (hfuel : s.n ≤ fuel + 1) :
+    Gen.c15oSeqIterSrc.runSelf X [seqSelfV s] =
+      match allSome (iterSeq s).1 with
+      | some items => .ok (.none, items.map stepV, seqSelfV (iterSeq s).2)
+      | none => .raise "IndexError" :=
+  C15_source_sequence_iter hX s hfuel
+
 end Fc
